@@ -28,9 +28,9 @@ CHECKS.update({
     "C01": (
         EXPL,
         "bounded-exhaustive enumeration of PedMEC instances executed on the real solver, judged by a brute-force reference",
-        "All instances of a layered space (single individual, two unrelated individuals, trio, quartet; all read matrices up to "
+        "All instances of a layered space (single individual, two unrelated individuals, trio, quartet, parents with five children; all read matrices up to "
         "R*C <= 12 over {0,1,absent} in every sorted order; weights, all genotype vectors, phred likelihood triples, recombination "
-        "costs, explicit position lists with uncovered columns, long tables that exercise sqrt checkpointing) are run through "
+        "costs, explicit position lists with uncovered columns, long tables that exercise sqrt checkpointing, columns with 17-19 active reads, a pedigree with five trios) are run through "
         "whatshap.core.PedigreeDPTable; reported cost, returned bipartition + transmission vector and every unflagged allele are "
         "compared with an independent brute force over all bipartitions, transmission paths and allele assignments.",
         "Trusted: native/oracle.cpp and its pure-Python twin (cross-checked at start-up), small value sets for weights/likelihoods/costs. "
@@ -62,13 +62,13 @@ CHECKS.update({
     "C06": (EXPL, "complete grid of read placements (type, context, offsets, CIGAR style) run through ReadSetReader.read with and without reference",
         "Every placement of the alphabet (SNV/MNP/INS/DEL of length 1-3, random / homopolymer / dinucleotide context, haplotype, every start and end offset within 14 bases, "
         "M, =/X, soft/hard clips, unrelated indels, reference skips next to / over the variant, reads outside, mate pairs, second variant at distance 1-30, a second LISTED indel of 1-8 bases at every offset "
-        "around both ends of the re-alignment window) is "
+        "around both ends of the re-alignment window, records with a symbolic ALT next to the variants, two-ALT records read with mav=True) is "
         "written to a BAM and read once per mode; the recorded allele must never be the other allele, must be absent for non-overlapping reads and must be found where the statement says so.",
         "Trusted: synthesiser places indels at the VCF position on a repeat-free reference; 'fully covers' as defined in DESIGN.md C06. One recorded known finding (known_findings.json, "
         "signature c06:wrong-allele:edit-distance-limit): matched only when an independent unit-cost edit-distance computation on the exactly extracted window favours the other allele too.", "C06"),
     "C07": (EXPL, "bounded-exhaustive enumeration of read multisets x caps x preferred subsets on readselection; traced pipeline runs for the per-family cap",
         "Every multiset of <= 5 reads (subsets of >= 2 of <= 5 positions) x cap 1-3 x bridging x every subset marked preferred (R<=4) x quality levels (R<=3): subset, cap and maximality are "
-        "recomputed independently; plus traced `whatshap phase` runs (single sample and trio, depth above the cap) for the total coverage handed to the solver.",
+        "recomputed independently; every multiset of <= 3 long / end-only reads over 200 variant positions (with and without a read over all of them); plus traced `whatshap phase` runs (single sample, trio, trio with an unsequenced parent phased through a VCF phase input; depth above the cap) for the total coverage handed to the solver.",
         "Trusted: the span-coverage recount; the trace hook reporting the reads given to the solver.", "C07"),
     "C08": (EXPL, "bounded-exhaustive enumeration of HMM instances against plain forward-backward / full path enumeration in long double",
         "All instances of the layered space (read matrices with >= 2 entries per read, base qualities, prior triples, single/trio/quartet, recombination costs, long tables for the sqrt "
@@ -78,7 +78,7 @@ CHECKS.update({
     "C11": (EXPL, "bounded-exhaustive enumeration of pairs / triples of phasings against the definitions (brute force for minima)",
         "All pairs of phasing patterns (n<=3 complete incl. unphased/homozygous calls, all-phased one/two-block patterns n=4, one-block n=5,7), explicit relabelling slice, triples for "
         "--tsv-multiway, 2-3 files x 1-3 chromosomes (every pairwise row, BED per pair and chromosome, multiway per chromosome), ploidy 3-4 one-block pairs, two polyploid blocks of different size, "
-        "function-level slice on compare_block: every TSV/BED/longest-block output is recomputed from the definitions.",
+        "function-level slice on compare_block (columns over the alleles 0/1 and 0/1/2): every TSV/BED/longest-block output is recomputed from the definitions.",
         "Trusted: the definitions as coded in c11.py (self-tested: run-length decomposition == brute-force minimum of flips+switches).", "C11"),
     "C12": (EXPL, "bounded-exhaustive enumeration of call-kind sequences against an independent count",
         "All sequences of 13 call kinds (incl. indel and MNP records) up to length 4 (5) x PS/HP x --only-snvs, three interleaved sets over 6-9 variants, two-chromosome files (also interleaved) x --chromosome selections, "
@@ -111,21 +111,21 @@ CHECKS.update({
         "one fixed reading of the traced transmission bits, conflicts/missing left unphased, homozygous-parent variants phased without reads.",
         "Trusted: scenario construction of Mendelian-consistent haplotypes; the trace hook's transmission vector.", "C05"),
     "C09": (MC, "explicit-state BFS over {phase PS, phase HP, unphase, phase-from-phased-VCF} histories; every transition executed by the real commands",
-        "Per base scenario (k<=5 (6) het variants + hom + multi-ALT record, one/two/interleaved blocks, singleton, 1-2 samples, unsorted GT, foreign PS/HP pre-phasing) BFS to depth 3; on every "
+        "Per base scenario (k<=5 (6) het variants + hom + multi-ALT record, one/two/interleaved blocks, singleton, reads that cover one variant each, all reads from the other sample, 1-2 samples, unsorted GT, foreign PS/HP pre-phasing) BFS to depth 3; on every "
         "transition: decoded output == what the writer was given (trace), own reader == text decoder, PS vs HP equal, no stale/old phase statement, phase(x) == phase(unphase(x)), phased VCF "
         "as only phase input (one file, or split into two files) reproduces its sets.",
         "Trusted: text decoder of PS/HP (GATK semantics), trace hook. A non-target sample is kept unphased (a PS-phased bystander next to an HP-tagged target is refused by whatshap's reader by design).", "C09"),
     "C10": (EXPL, "bounded-exhaustive enumeration of alignment-kind sequences x VCF designs x options; conservation diff, independent scoring, exchange symmetry by a second run",
         "All sequences of <= 3 (4) alignment kinds (pure / mostly / tied haplotype reads, no-variant reads, mates, supplementary, secondary, duplicate, unmapped placed/unplaced, other "
-        "sample, no RG, stale tags, shared BX near and far, unmapped mate of a tagged read) x 5 phased-VCF designs x options (tag-supplementary, ignore-linked-read, one region, two adjacent regions, linked-read cutoff, output threads, no reference, ignore-read-groups); "
+        "sample, no RG, stale tags, shared BX near and far, unmapped mate of a tagged read, mate on a contig without variants) x 5 phased-VCF designs x options (tag-supplementary, ignore-linked-read, one region, two adjacent regions, linked-read cutoff, output threads, no reference, ignore-read-groups); "
         "ploidy 3-4 slice over every heterozygous genotype matrix of three variants.",
         "Trusted: synthesiser, independent scoring (each variant of a read name counted once; 30 per variant), read-cloud model (same barcode within the cutoff) where the clouds are unambiguous; else conservation and symmetry only.", "C10"),
     "C15": (EXPL, "bounded-exhaustive enumeration of polyploid worlds (haplotype matrices up to row order x read tilings x -B x tag) through run_polyphase",
         "Ploidy 2-4 (5-6 thorough), k<=5 variants, all 0/1 matrices with heterozygous columns up to row order (thinned deterministically above a budget), multi-allelic slice, uneven coverage, "
-        "coverage gaps, pre-phasing, distrust, two samples, further chromosomes on which nothing can be phased: genotype conformance, only heterozygous phased, pass-through, phase sets = disjoint ordered stretches of the read-covered het variants named inside their own stretch.",
+        "coverage gaps, pre-phasing, distrust, two samples, further chromosomes on which nothing can be phased, a second record on the coordinate of a phased one: genotype conformance, only heterozygous phased, pass-through, phase sets = disjoint ordered stretches of the read-covered het variants named inside their own stretch.",
         "Trusted: synthesiser; which variants are read-covered is known from the scenario. Matrices beyond the per-shape budget are thinned (stated in the evidence).", "C15"),
     "C16": (MC, "enumeration of schedules: hash seeds until every iteration order of the sample-name set occurred; all job->worker assignments under a controlled pool; thread-count values; repetition",
-        "18 subcommand scenarios (incl. haplotag with barcoded reads tied between two phase sets, haplotag --regions over two chromosomes, inputs using undeclared predefined INFO keys) run in fresh interpreters under PYTHONHASHSEED=0,1,2,... until all n! orders of the name set were realised (measured in the child); polyphase under a "
+        "24 subcommand scenarios (incl. polyphase --use-prephasing with one pre-phased sample among three, haplotag with barcoded reads tied between two phase sets, haplotag --regions over two chromosomes, inputs using undeclared predefined INFO keys) run in fresh interpreters under PYTHONHASHSEED=0,1,2,... until all n! orders of the name set were realised (measured in the child); polyphase under a "
         "controlled multiprocessing pool for every assignment of the jobs to 2 and 3 workers (up to symmetry) and under the stock Pool; every command twice in one interpreter; haplotag --output-threads 1/2/4. "
         "All outputs compared record for record with the first run.",
         "Trusted: abstraction of the hash seed to the order of the name sets; htslib's internal writer threads are not owned by the harness.", "C16"),
